@@ -276,7 +276,7 @@ def gen_call_v(rng, sg, xenv):
     """-> step tail [args, ret, extra positional values, surplus keyword values]"""
     nva = rng.choice([0, 1, 2, 2, 3]) if sg.get('varargs') is not None else 0
     nkw = rng.choice([0, 1, 1, 2]) if sg.get('varkw') is not None else 0
-    pos = sg['params'] + [sg['varargs']] * nva + [sg['varkw']] * nkw + [sg['ret']]
+    pos = sg['params'] + [sg.get('varargs')] * nva + [sg.get('varkw')] * nkw + [sg['ret']]
     vals = gen_args(rng, pos, xenv, rng.choice(MODES))
     n = len(sg['params'])
     return vals[:n], vals[-1], vals[n:n + nva], vals[n + nva:n + nva + nkw]
@@ -594,6 +594,7 @@ def run(tier, seed, replay=None):
             bump('step_kind', s[0]); bump('class_kind', str(facts['class_kind'])); bump('impl_outcome', OUT.get(I, str(I)))
             bump('spec_verdict', VERD.get(S, str(S)))
             hist['mismatch_demanded'] += mm
+            hist['steps_collecting_variadic_values'] = hist.get('steps_collecting_variadic_values', 0) + bool(len(s) > 5 and (s[5] or (len(s) > 6 and s[6])))
             hist['steps_on_classes_generic_by_inheritance'] = hist.get('steps_on_classes_generic_by_inheritance', 0) + bool(facts.get('generic_by_inheritance'))
             if s[0] == 'new':
                 for x in s[3]:
